@@ -68,7 +68,8 @@ def tasks(tier):
     # shared code generation that breaks this property fails this check too
     return ['symbols', 'set_kernel', 'closure', 'wiring', 'canary',
             'dep:skeleton',
-            'dep:range', 'dep:determinism', 'dep:bounded']
+            'dep:range', 'dep:determinism', 'dep:group_calls', 'dep:carry',
+            'dep:bounded']
 
 
 def blocks(repo):
